@@ -46,13 +46,18 @@ func ruleReadonly(c *Ctx, names []string, tier string) *RuleResult {
 func init() {
 	register(&propDef{
 		id:          "C19",
-		explanation: "Race freedom by absence of shared mutable state, for all schedules at once: GLOBAL (no function writes or leaks package-level memory), NOSHARE (no goroutine, channel creation, sync primitive or global RNG inside the module), READONLY (the queries the property names write nothing reachable from the shared value: E-EFF write summaries, interface calls resolved by module-restricted CHA), RETAIN (constructors keeping caller memory are exactly the listed ones and the constructed type never writes through the kept field), CLOSE (AllMaximalCliques closes its channel on every return and never sends after). Given these, goroutines working on separately constructed values can only meet in caller-supplied memory or in a deliberately shared read-only value; 'same result as alone' then follows from sequential determinism. Decides the no-data-race clause structurally; does not decide that shards partition the classes.",
+		explanation: "Race freedom by absence of shared mutable state, for all schedules at once: GLOBAL (no function writes or leaks package-level memory), NOSHARE (no goroutine, channel creation, sync primitive or global RNG inside the module), READONLY (the queries the property names write nothing reachable from the shared value: E-EFF write summaries, interface calls resolved by module-restricted CHA), RETAIN (constructors keeping caller memory are exactly the listed ones and the constructed type never writes through the kept field), CLOSE (AllMaximalCliques closes its channel on every return and never sends after), FRESH (the graphs returned by Copy and InducedSubgraph of both representations share no memory with their source). Given these, goroutines working on separately constructed values can only meet in caller-supplied memory or in a deliberately shared read-only value; 'same result as alone' then follows from sequential determinism. Decides the no-data-race clause structurally; does not decide that shards partition the classes.",
 		notDecided:  []string{"that the m shards of a split search partition the isomorphism classes (C03)", "behaviour of user callbacks"},
 		assumptions: []string{"user-supplied callbacks do not share state between goroutines", "a data race needs a write to memory reachable by two goroutines; E-EFF over-approximates writes (may-analysis)"},
 		run: func(c *Ctx, tier string) []*RuleResult {
 			cl := &RuleResult{Rule: "CLOSE", Doc: "AllMaximalCliques: every path to return passes through close(c); no send reachable after close", MinInst: 1}
 			ruleClose(c, cl, "graph.AllMaximalCliques", "c")
-			return []*RuleResult{ruleGlobal(c), ruleNoShare(c), ruleReadonly(c, c19Observers, tier), ruleRetain(c, c19Ctors(c), c19Retain), cl, ruleRetainHelpers(c), ruleCtorArgs(c)}
+			// a copy is a distinct value: it must share no memory with its source (also a clause of C05)
+			cp := &RuleResult{Rule: "FRESH", Doc: "Copy / InducedSubgraph / Clone results reach no receiver or argument memory: editing a copy cannot touch the graph it was taken from", MinInst: 4}
+			for _, n := range []string{"(*graph.DenseGraph).Copy", "(*graph.DenseGraph).InducedSubgraph", "(graph.SparseGraph).Copy", "(graph.SparseGraph).InducedSubgraph"} {
+				freshResult(c, cp, c.Fn(n), 0, nil, nil, "is a deep copy")
+			}
+			return []*RuleResult{ruleGlobal(c), ruleNoShare(c), ruleReadonly(c, c19Observers, tier), ruleRetain(c, c19Ctors(c), c19Retain), cl, ruleRetainHelpers(c), ruleCtorArgs(c), cp}
 		},
 		controls: func(ctl *Ctx) []*RuleResult {
 			ro := &RuleResult{Rule: "READONLY"}
